@@ -17,6 +17,8 @@ VARIABLES blk, tid, l, st, memo, known, verdict
 vars == <<blk, tid, l, st, memo, known, verdict>>
 
 StateOf(x) == NormState([choice |-> x.choice, n |-> x.n, gram |-> x.gram, pts |-> x.pts])
+(* does the observed state x (grid projection, off flag, signature of the exact floats) show the specification's state s? *)
+ObsMatches(x, s) == IF IsOpaque(s) THEN x.sig = s.opq /\ x.choice = s.choice ELSE ~x.off /\ StateOf(x) = s
 Ids(b) == {i \in 1..Len(Traces) : i % NBlocks = b - 1}
 Report(v) == PrintT("V|" \o ToString(tid) \o "|" \o v)
 
@@ -38,8 +40,8 @@ QueryClause(e) ==
   LET i == e.obj q == e.q
       kf == IF Stale(memo, st, i, q) THEN " KF=C14-stale-memo" ELSE "" IN
   IF e.exc # "" THEN "REJECT Raised:" \o q \o kf ELSE
-  IF e.off THEN "REJECT OnGrid:" \o q ELSE
-  IF StateOf(e.state) # SpecQuery(st, i, q)[i] \/ e.aux # e.aux_before THEN "REJECT Mutated:" \o q ELSE
+  IF e.off /\ ~IsOpaque(st[i]) THEN "REJECT OnGrid:" \o q ELSE
+  IF ~ObsMatches(e.state, SpecQuery(st, i, q)[i]) \/ e.aux # e.aux_before THEN "REJECT Mutated:" \o q ELSE
   IF e.ans # e.fresh THEN "REJECT Fresh:" \o q \o kf ELSE
   IF \E k \in known : k[1] = q /\ k[2] = st[i] /\ k[3] # e.fresh THEN "REJECT Repeat:" \o q ELSE ""
 TraceQuery ==
@@ -54,6 +56,15 @@ TraceQuery ==
 TraceSwitch ==
   /\ Running /\ Ev.ev = "switch"
   /\ IF ~(Ev.obj \in DOMAIN st /\ Ev.ch \in {"H", "R"}) THEN Fail("OOD event")
+     ELSE IF IsOpaque(st[Ev.obj]) THEN
+          \* an object whose hydrogens were normalised: the switch to its own setting leaves it alone, the other one gives a
+          \* new state in that setting (that it is the right one is C13's matter)
+          (IF Ev.exc # "" THEN Fail("REJECT Raised:switch")
+           ELSE IF Ev.ch = st[Ev.obj].choice /\ ~ObsMatches(Ev.state, st[Ev.obj]) THEN Fail("REJECT SwitchState")
+           ELSE IF Ev.state.choice # Ev.ch THEN Fail("REJECT SwitchState")
+           ELSE /\ st' = [st EXCEPT ![Ev.obj] = IF Ev.ch = st[Ev.obj].choice THEN st[Ev.obj] ELSE Opaque(Ev.ch, Ev.state.sig)]
+                /\ UNCHANGED memo
+                /\ l' = l + 1 /\ UNCHANGED <<blk, tid, known, verdict>>)
      ELSE IF ~SwitchDomain(st[Ev.obj], Ev.ch) THEN Fail("OOD gram-not-divisible")
      ELSE IF Ev.exc # "" THEN Fail("REJECT Raised:switch")
      ELSE IF Ev.off THEN Fail("REJECT OnGrid:switch")
@@ -64,20 +75,32 @@ TraceSwitch ==
 TraceRefused ==
   /\ Running /\ Ev.ev = "refused"
   /\ IF ~(Ev.obj \in DOMAIN st /\ MustRefuse(T.number, Ev.ch)) THEN Fail("OOD event")
-     ELSE IF Ev.off THEN Fail("REJECT OnGrid:refused")
-     ELSE IF StateOf(Ev.state) # SpecRefused(st, Ev.obj)[Ev.obj] \/ Ev.aux # Ev.aux_before THEN Fail("REJECT RefusedRequestChangedState")
+     ELSE IF Ev.off /\ ~IsOpaque(st[Ev.obj]) THEN Fail("REJECT OnGrid:refused")
+     ELSE IF ~ObsMatches(Ev.state, SpecRefused(st, Ev.obj)[Ev.obj]) \/ Ev.aux # Ev.aux_before THEN Fail("REJECT RefusedRequestChangedState")
      ELSE /\ st' = SpecRefused(st, Ev.obj)
           /\ l' = l + 1 /\ UNCHANGED <<blk, tid, memo, known, verdict>>
+(* normalize_hydrogen_bondlengths: hydrogens bonded to C, N, O, B end up at the neutron distance, nothing else changes; the
+   object is in a new state (known by its signature) unless nothing had to move *)
+TraceNormalize ==
+  /\ Running /\ Ev.ev = "normalize"
+  /\ IF ~(Ev.obj \in DOMAIN st) THEN Fail("OOD event")
+     ELSE IF Ev.exc # "" THEN Fail("REJECT Raised:normalize")
+     ELSE IF NormalizeClause(Ev.atoms) # "" THEN Fail("REJECT Normalize:" \o NormalizeClause(Ev.atoms))
+     ELSE IF ~Ev.cellsame \/ Ev.aux # Ev.aux_before \/ Ev.state.choice # st[Ev.obj].choice THEN Fail("REJECT Normalize:ChangedCellOrGroup")
+     ELSE /\ st' = [st EXCEPT ![Ev.obj] = IF (\A k \in DOMAIN Ev.atoms : ~Ev.atoms[k].moved) /\ ~IsOpaque(st[Ev.obj]) THEN st[Ev.obj]
+                                          ELSE Opaque(st[Ev.obj].choice, Ev.state.sig)]
+          /\ UNCHANGED memo               \* as-built bookkeeping: nothing invalidated (classification only)
+          /\ l' = l + 1 /\ UNCHANGED <<blk, tid, known, verdict>>
 TraceCopy ==
   /\ Running /\ Ev.ev = "copy"
   /\ IF ~(Ev.src \in DOMAIN st /\ Ev.dst = Cardinality(DOMAIN st) + 1) THEN Fail("OOD event")
      ELSE IF Ev.exc # "" THEN Fail("REJECT Raised:copy")
-     ELSE IF StateOf(Ev.state) # st[Ev.src] THEN Fail("REJECT CopyState")
+     ELSE IF ~ObsMatches(Ev.state, st[Ev.src]) THEN Fail("REJECT CopyState")
      ELSE /\ st' = SpecCopy(st, Ev.src, Ev.dst)
           /\ memo' = [k \in DOMAIN st \cup {Ev.dst} |-> IF k = Ev.dst THEN memo[Ev.src] ELSE memo[k]]
           /\ l' = l + 1 /\ UNCHANGED <<blk, tid, known, verdict>>
 Finish == /\ tid > 0 /\ verdict = "" /\ l = Len(T.events) + 1
           /\ verdict' = "ACCEPT" /\ Report("ACCEPT") /\ UNCHANGED <<blk, tid, l, st, memo, known>>
-Next == PickBlock \/ PickTrace \/ TraceQuery \/ TraceSwitch \/ TraceRefused \/ TraceCopy \/ Finish
+Next == PickBlock \/ PickTrace \/ TraceQuery \/ TraceSwitch \/ TraceRefused \/ TraceNormalize \/ TraceCopy \/ Finish
 TraceSpec == Init /\ [][Next]_vars
 =============================================================================
